@@ -2509,6 +2509,7 @@ def _compile_ql_config_op(
         requires_restart=requires_restart,
         config_op=config_op,
         globals=globals,
+        has_dml=bool(getattr(ir, 'dml_exprs', None)),
         in_type_args=in_type_args,
         in_type_data=in_type_data,
         in_type_id=in_type_id.bytes,
@@ -2570,10 +2571,15 @@ def _compile_dispatch_ql(
                 capability = enums.Capability.SESSION_CONFIG
         else:
             capability = enums.Capability.PERSISTENT_CONFIG
-        return (
-            _compile_ql_config_op(ctx, ql),
-            capability,
-        )
+        config_query = _compile_ql_config_op(ctx, ql)
+        if (
+            ql.scope is qltypes.ConfigScope.GLOBAL
+            and config_query.has_dml
+        ):
+            # SET GLOBAL takes an arbitrary expression, which
+            # may contain DML that is executed with the statement.
+            capability |= enums.Capability.MODIFICATIONS
+        return (config_query, capability)
 
     elif isinstance(ql, qlast.ExplainStmt):
         query = _compile_ql_explain(ctx, ql, script_info=script_info)
